@@ -109,10 +109,19 @@ def drive(rec, workdir, idx):
     path = os.path.join(workdir, f"t{os.getpid()}.h5")
     jpath = os.path.join(workdir, f"t{os.getpid()}.json")
     source = {"none": None, "index": 1, "callable": (lambda fields: fields[1])}[src]
+    # the way a solver works: ONE state object, updated in place between the interrupts, and a callable source that
+    # derives a new field from it at every call
+    persistent = src == "callable" and idx % 2 == 1 and len(frames) > 0
+    if persistent:
+        source = lambda fields: fields[1].copy()  # noqa: E731
+        holder = FieldCollection([ScalarField(frames[0].grid, 0.25), frames[0].copy()])
 
     def state(f):
         if src == "none":
             return f
+        if persistent:
+            holder[1].data[...] = f.data
+            return holder
         other = ScalarField(f.grid, 0.25)
         return FieldCollection([other, f])
 
@@ -265,14 +274,22 @@ def _solver_runs(out, workdir):
         field.data += 0.02 * rng.standard_normal(field.data.shape)
         eq = pde.CahnHilliardPDE() if k % 2 == 0 else pde.DiffusionPDE(0.3)
         path = os.path.join(workdir, f"solver{k}.h5")
+        # second and later runs: the state is rescaled to [-1, 1] and a callable source maps it back at every interrupt
+        # (the solver updates ONE state object in place); the storage applies the same map
+        derived = k >= 1
+        if derived:
+            field = 2 * field - 1
+            src_fn = lambda c: (c + 1) / 2  # noqa: E731
         tr = DropletTracker(0.05, filename=path, threshold=st["threshold"], minimal_radius=st["minimal_radius"],
-                            refine=st["refine"], refine_args=st["refine_args"], perturbation_modes=st["modes"])
+                            refine=st["refine"], refine_args=st["refine_args"], perturbation_modes=st["modes"],
+                            source=src_fn if derived else None)
         storage = pde.MemoryStorage()
         fails = []
         try:
             with warnings.catch_warnings():
                 warnings.simplefilter("ignore")
-                eq.solve(field, t_range=0.2, dt=1e-3, tracker=[tr, storage.tracker(0.05)], backend="numpy")
+                stracker = storage.tracker(0.05, transformation=(lambda c, t: (c + 1) / 2) if derived else None)
+                eq.solve(field, t_range=0.2, dt=1e-3, tracker=[tr, stracker], backend="numpy")
                 off = EmulsionTimeCourse.from_storage(storage, progress=False, **st)
                 back = EmulsionTimeCourse.from_file(path, progress=False)
             if len(tr.data) < 3:
